@@ -693,6 +693,18 @@ func c09Metadata(r *core.Run, idx int, rng *rand.Rand) {
 			try([]byte(`<?xml version='1.1' encoding='`+enc+`' standalone='yes'?>`+body), "declared_encoding")
 		}
 		r.Count("metadata_with_declared_encoding", int64(2*len(declaredEncodings)))
+		// aggregates: EntitiesDescriptor wrappers around the service provider's document, around other entities, around
+		// nothing, nested
+		inner := strings.TrimSpace(strings.TrimPrefix(strings.TrimSpace(string(x)), `<?xml version="1.0" encoding="UTF-8"?>`))
+		idpEntity := `<md:EntityDescriptor xmlns:md="` + spsim.NSMD + `" entityID="https://partner-idp.example/metadata"><md:IDPSSODescriptor protocolSupportEnumeration="` + spsim.NSP + `"><md:SingleSignOnService Binding="` + spsim.BindRedirect + `" Location="https://partner-idp.example/sso"/></md:IDPSSODescriptor></md:EntityDescriptor>`
+		grp := func(kids ...string) string {
+			return `<md:EntitiesDescriptor xmlns:md="` + spsim.NSMD + `" Name="urn:example:federation">` + strings.Join(kids, "") + `</md:EntitiesDescriptor>`
+		}
+		for _, agg := range []string{grp(inner), grp(inner, idpEntity), grp(idpEntity, inner), grp(idpEntity), grp(), grp(grp()), grp(grp(idpEntity)), grp(grp(inner)), grp(grp(), grp()), grp(grp(grp(grp(grp(inner))))),
+			grp(idpEntity, grp(inner)), grp(grp(idpEntity), grp(idpEntity)), grp(inner, inner), `<?xml version="1.0" encoding="UTF-8"?>` + "\n" + grp(inner, idpEntity)} {
+			try([]byte(agg), "aggregate")
+		}
+		r.Count("aggregate_metadata_documents", 14)
 		for _, s := range []string{"", "<", "<?xml version=\"1.0\"?>", "<EntityDescriptor/>", "<EntitiesDescriptor xmlns=\"" + spsim.NSMD + "\"/>", "<md:EntityDescriptor xmlns:md=\"" + spsim.NSMD + "\"><md:IDPSSODescriptor/></md:EntityDescriptor>", "\xff\xfe<\x00"} {
 			try([]byte(s), "shape")
 		}
